@@ -1243,9 +1243,67 @@ let field_of = function
   | "ed" -> (Z.of_string "6554484396890773809930967563523245729705921265872317281365359162392183254199", 252)
   | "bn254" -> (Z.of_string "21888242871839275222246405745257275088548364400416034343698204186575808495617", 254)
   | f -> failwith ("unknown field " ^ f)
+(* ---------------- Ligero (univariate): algebraic core with an ideal column commitment ---------------- *)
+let run_ligflow c =
+  let fo = fo () in
+  if not (has c "n_rows") then obs1 "commit" "S" "ok" else begin
+    obs1 "commit" "S" "ok";
+    let lig = List.map int_of_string (get c "lig") in
+    let rho_inv = List.nth lig 1 and wf = List.nth lig 2 = 1 in
+    let n_rows = int1 c "n_rows" and n_cols = int1 c "n_cols" and n_ext = int1 c "n_ext" in
+    obs1 "dom_size" "N" (Z.to_string (Sizes.next_pow2 (Z.of_int (n_cols * rho_inv))));
+    let nn = nat_of_int in
+    let undash k = let v = get c k in if v = [ "-" ] then [] else v in
+    let coeffs = List.map f_of_str (undash "coeffs") in
+    let rows = Ligero.lig_matrix fo (nn n_rows) (nn n_cols) coeffs in
+    let omega = f_of_str (str1 c "omega") and z = f_of_str (str1 c "pt") in
+    let cext = List.map (Ligero.encode fo omega (nn n_ext)) rows in
+    let sqs pre = List.map (fun (_, b) -> List.map Z.of_string b) (indexed c (pre ^ "sq")) in
+    let rtape pre = List.map f_of_str (undash (pre ^ "r")) in
+    let idx_of pre = match CalcT.indices_of (Z.of_int n_ext) (sqs pre) with
+      | Result.Ok l -> List.map (fun x -> nn (Z.to_int x)) l | _ -> [] in
+    let chk value pf pre = Ligero.l_check fo wf (nn n_rows) (nn n_cols) (nn n_ext) omega cext z value pf (rtape pre) (idx_of pre) in
+    if has c "p.nsq" then begin
+      let op = Ligero.l_open fo wf (nn n_rows) (nn n_cols) (nn n_ext) omega rows z (rtape "p.") (idx_of "p.") in
+      obs1 "open" "S" (class_of op);
+      match op with
+      | Result.Ok pf ->
+        obs "pf.v" "F" (dash (fs_to pf.Ligero.lf_v));
+        obs "pf.wf" "F" (match pf.Ligero.lf_wf with Some w -> dash (fs_to w) | None -> [ "none" ]);
+        obs "pf.leaf_idx" "N" (dash (List.map (fun p -> string_of_int (int_of_nat p.Ligero.lpt_index)) pf.Ligero.lf_paths));
+        obs "pf.col_lens" "N" (dash (List.map (fun col -> string_of_int (List.length col)) pf.Ligero.lf_cols));
+        obs "pf.cols" "F" (dash (List.concat_map fs_to pf.Ligero.lf_cols));
+        let (a, _b) = Ligero.tensor_uni fo z (nn n_cols) (nn n_rows) in
+        let value = Ligero.ip fo pf.Ligero.lf_v a in
+        obs1 "value" "F" (f_to_str value);
+        if has c "v.nsq" then begin
+          obs1 "check" "S" (decision (chk value pf "v."));
+          let delta = f_of_str (str1 c "delta") in
+          (* the false value: the verifier's transcript does not depend on the value *)
+          obs1 "check_bad" "S" (decision (chk (fo.Field.fadd value delta) pf "v."))
+        end;
+        List.iter (fun (i, _) ->
+            let pre = Printf.sprintf "m%d." i in
+            if has c (pre ^ "skip") || not (has c (pre ^ "v")) then () else begin
+              let intact = str1 c (pre ^ "intact") = "1" in
+              let lens = List.map int_of_string (undash (pre ^ "col_lens")) in
+              let flat = ref (List.map f_of_str (undash (pre ^ "cols"))) in
+              let take n = let rec go n acc l = if n = 0 then (List.rev acc, l) else (match l with x :: t -> go (n - 1) (x :: acc) t | [] -> (List.rev acc, [])) in
+                let (h, t) = go n [] !flat in flat := t; h in
+              let cols = List.map take lens in
+              let wfv = let v = get c (pre ^ "wf") in if v = [ "none" ] then None else Some (List.map f_of_str (if v = [ "-" ] then [] else v)) in
+              let mpf = { Ligero.lf_paths = List.map (fun s -> { Ligero.lpt_index = nn (int_of_string s); Ligero.lpt_intact = intact }) (undash (pre ^ "leaf_idx"));
+                          Ligero.lf_v = List.map f_of_str (undash (pre ^ "v")); Ligero.lf_cols = cols; Ligero.lf_wf = wfv } in
+              obs1 (Printf.sprintf "mut.%d" i) "S" (decision (chk value mpf pre))
+            end) (indexed c "mut")
+      | _ -> ()
+    end
+  end
+
 let calc_fuel = 40000
 let run_c13 c =
   match str1 c "sub" with
+  | "ligflow" -> run_ligflow c
   | "calct" ->
     let (q, bits) = field_of (str1 c "field") in
     let zn k = Z.of_string (str1 c k) in
